@@ -5,6 +5,9 @@
 (*                                to finish), FALSE for Tunnel.Close, whose contract lets a later  *)
 (*                                closer return while the first one is still closing               *)
 (*   Reg      [h]                 clean-up action / close callback h is registered                 *)
+(*   Own      [h]                 the component is handed a resource (a connection) whose release  *)
+(*                                h it now owes: demanded exactly once if ANY Close is called      *)
+(*                                afterwards (Reg: only if registered before the FIRST Close call) *)
 (*   CloseCall[p] CloseRet[p]     closer p calls Close / its Close returns                          *)
 (*   Ran      [h]                 clean-up action or callback h ran                                *)
 (*   Report   [delta]             the component added delta bytes to the traffic statistics        *)
@@ -34,46 +37,54 @@
 (* close fails rather than succeeds harmlessly; a handler registered after Close was called.        *)
 EXTENDS VLib
 
-VARIABLES comp, sync, anyCall, open, nret, must, cnt, sum
-vars == <<l, viol, comp, sync, anyCall, open, nret, must, cnt, sum>>
+VARIABLES comp, sync, anyCall, open, nret, must, cnt, sum, pending
+vars == <<l, viol, comp, sync, anyCall, open, nret, must, cnt, sum, pending>>
 
 Init == /\ l = 1 /\ viol = {} /\ comp = "?" /\ sync = FALSE /\ anyCall = FALSE
-        /\ open = {} /\ nret = 0 /\ must = {} /\ cnt = <<>> /\ sum = 0
+        /\ open = <<>> /\ nret = 0 /\ must = {} /\ cnt = <<>> /\ sum = 0 /\ pending = {}
 
 Cnt(h) == IF h \in DOMAIN cnt THEN cnt[h] ELSE 0
 
 TrCfg == /\ Is("Cfg") /\ comp' = Ev.comp /\ sync' = Ev.sync
-         /\ l' = l + 1 /\ UNCHANGED <<viol, anyCall, open, nret, must, cnt, sum>>
+         /\ l' = l + 1 /\ UNCHANGED <<viol, anyCall, open, nret, must, cnt, sum, pending>>
 
 TrReg == /\ Is("Reg")
          /\ must' = IF anyCall THEN must ELSE must \cup {Ev.h}
-         /\ l' = l + 1 /\ UNCHANGED <<viol, comp, sync, anyCall, open, nret, cnt, sum>>
+         /\ l' = l + 1 /\ UNCHANGED <<viol, comp, sync, anyCall, open, nret, cnt, sum, pending>>
 
-TrCall == /\ Is("CloseCall") /\ anyCall' = TRUE /\ open' = open \cup {Ev.p}
-          /\ l' = l + 1 /\ UNCHANGED <<viol, comp, sync, nret, must, cnt, sum>>
+TrOwn == /\ Is("Own") /\ pending' = pending \cup {Ev.h}
+         /\ l' = l + 1 /\ UNCHANGED <<viol, comp, sync, anyCall, open, nret, must, cnt, sum>>
 
-Missing(when) == {V("AtLeastOnce", comp \o ":" \o h \o ":" \o when) : h \in {x \in must : Cnt(x) = 0}}
+\* open: closer -> what was owed when it called Close (that much its own return must find done)
+TrCall == /\ Is("CloseCall") /\ anyCall' = TRUE
+          /\ must' = must \cup pending /\ pending' = {}
+          /\ open' = [x \in DOMAIN open \cup {Ev.p} |-> IF x = Ev.p THEN must' ELSE open[x]]
+          /\ l' = l + 1 /\ UNCHANGED <<viol, comp, sync, nret, cnt, sum>>
 
-TrRet == /\ Is("CloseRet") /\ open' = open \ {Ev.p} /\ nret' = nret + 1
-         /\ viol' = viol \cup (IF sync THEN Missing("at-return") ELSE {})
-         /\ l' = l + 1 /\ UNCHANGED <<comp, sync, anyCall, must, cnt, sum>>
+MissingOf(owed, when) == {V("AtLeastOnce", comp \o ":" \o h \o ":" \o when) : h \in {x \in owed : Cnt(x) = 0}}
+Missing(when) == MissingOf(must, when)
+
+TrRet == /\ Is("CloseRet") /\ nret' = nret + 1
+         /\ open' = [x \in DOMAIN open \ {Ev.p} |-> open[x]]
+         /\ viol' = viol \cup (IF sync /\ Ev.p \in DOMAIN open THEN MissingOf(open[Ev.p], "at-return") ELSE {})
+         /\ l' = l + 1 /\ UNCHANGED <<comp, sync, anyCall, must, cnt, sum, pending>>
 
 TrRan == /\ Is("Ran")
          /\ cnt' = [x \in DOMAIN cnt \cup {Ev.h} |-> IF x = Ev.h THEN Cnt(x) + 1 ELSE cnt[x]]
          /\ viol' = viol \cup (IF Cnt(Ev.h) >= 1 THEN {V("AtMostOnce", comp \o ":" \o Ev.h)} ELSE {})
-         /\ l' = l + 1 /\ UNCHANGED <<comp, sync, anyCall, open, nret, must, sum>>
+         /\ l' = l + 1 /\ UNCHANGED <<comp, sync, anyCall, open, nret, must, sum, pending>>
 
 TrReport == /\ Is("Report") /\ sum' = sum + Ev.delta
-            /\ l' = l + 1 /\ UNCHANGED <<viol, comp, sync, anyCall, open, nret, must, cnt>>
+            /\ l' = l + 1 /\ UNCHANGED <<viol, comp, sync, anyCall, open, nret, must, cnt, pending>>
 
 TrOp == /\ Is("Op")
         /\ viol' = viol \cup (IF Ev.res \in {"panic", "hang"}
                               THEN {V("CleanFailure", comp \o ":" \o Ev.op \o ":" \o Ev.res)} ELSE {})
-        /\ l' = l + 1 /\ UNCHANGED <<comp, sync, anyCall, open, nret, must, cnt, sum>>
+        /\ l' = l + 1 /\ UNCHANGED <<comp, sync, anyCall, open, nret, must, cnt, sum, pending>>
 
 TrPanic == /\ Is("Panic")
            /\ viol' = viol \cup {V("NoPanic", comp \o ":" \o Ev.where)}
-           /\ l' = l + 1 /\ UNCHANGED <<comp, sync, anyCall, open, nret, must, cnt, sum>>
+           /\ l' = l + 1 /\ UNCHANGED <<comp, sync, anyCall, open, nret, must, cnt, sum, pending>>
 
 \* one hammer round: a complete little trace of its own, reduced to the counts
 TrRound ==
@@ -81,7 +92,7 @@ TrRound ==
   /\ LET c == Ev.counts IN
      viol' = viol \cup {V("AtMostOnce", comp \o ":" \o h) : h \in {x \in DOMAIN c : c[x] >= 2}}
                   \cup {V("AtLeastOnce", comp \o ":" \o h \o ":at-quiescence") : h \in {x \in DOMAIN c : c[x] = 0}}
-  /\ l' = l + 1 /\ UNCHANGED <<comp, sync, anyCall, open, nret, must, cnt, sum>>
+  /\ l' = l + 1 /\ UNCHANGED <<comp, sync, anyCall, open, nret, must, cnt, sum, pending>>
 
 TrQuiesce ==
   /\ Is("Quiesce")
@@ -90,13 +101,13 @@ TrQuiesce ==
        \cup (IF Ev.traffic /\ sum > Ev.moved THEN {V("TrafficOnce", comp \o ":over")} ELSE {})
        \cup (IF Ev.traffic /\ sum < Ev.moved THEN {V("TrafficOnce", comp \o ":under")} ELSE {})
        \cup (IF Ev.leaked > 0 THEN {V("NoLeak", comp \o ":" \o Ev.top)} ELSE {})
-       \cup (IF open # {} THEN {V("CloseReturns", comp)} ELSE {})
-  /\ l' = l + 1 /\ UNCHANGED <<comp, sync, anyCall, open, nret, must, cnt, sum>>
+       \cup (IF DOMAIN open # {} THEN {V("CloseReturns", comp)} ELSE {})
+  /\ l' = l + 1 /\ UNCHANGED <<comp, sync, anyCall, open, nret, must, cnt, sum, pending>>
 
 TrEnd == /\ Is("End") /\ EmitVerdict
          /\ l' = l + 1 /\ viol' = {} /\ comp' = "?" /\ sync' = FALSE /\ anyCall' = FALSE
-         /\ open' = {} /\ nret' = 0 /\ must' = {} /\ cnt' = <<>> /\ sum' = 0
+         /\ open' = <<>> /\ nret' = 0 /\ must' = {} /\ cnt' = <<>> /\ sum' = 0 /\ pending' = {}
 
-Next == TrCfg \/ TrReg \/ TrCall \/ TrRet \/ TrRan \/ TrReport \/ TrOp \/ TrPanic \/ TrRound \/ TrQuiesce \/ TrEnd
+Next == TrCfg \/ TrReg \/ TrOwn \/ TrCall \/ TrRet \/ TrRan \/ TrReport \/ TrOp \/ TrPanic \/ TrRound \/ TrQuiesce \/ TrEnd
 Spec == Init /\ [][Next]_vars
 =============================================================================
